@@ -315,6 +315,7 @@ def make_watcher(kind, is_async=False, sync_callbacks=False):
 class Config:
     def __init__(self, shape, adapter=True, watcher=None, initial=None, is_async=False, text=None, matchfn=None, late=False):
         self.shape, self.adapter, self.watcher, self.is_async = shape, adapter, watcher, is_async
+        self.listform = False  # single adds / removes pass the rule as one list argument instead of varargs
         self.sync_callbacks = False  # async enforcer with a watcher whose operation-specific callbacks are plain functions
         self.noq = False  # True: no decision / role queries after the calls (histories whose link state is outside the modelled domain)
         self.late = late  # the enforcer is built without an adapter, its flags are set, then set_adapter + load_policy
@@ -332,7 +333,7 @@ class Config:
         )
 
     def key(self):
-        return (self.shape, self.text, self.matchfn, self.adapter, self.watcher, self.is_async, repr(self.initial), self.late, self.sync_callbacks)
+        return (self.shape, self.text, self.matchfn, self.adapter, self.watcher, self.is_async, repr(self.initial), self.late, self.sync_callbacks, self.listform)
 
 
 def build_enforcer(cfg, fail_after=None):
@@ -388,6 +389,7 @@ def build_enforcer(cfg, fail_after=None):
 
         w.log.observe = observe
     e._verif_text = cfg.text
+    e._verif_listform = getattr(cfg, "listform", False)
     events = []
     if ad is not None:
         ad.log.events = events
@@ -512,6 +514,11 @@ def impl_call(e, op, is_async):
         return [list(r) for r in x]
 
     G = len(op) > 1 and op[1] in ("g", "g2")
+    if getattr(e, "_verif_listform", False) and n in ("add", "remove"):
+        # the same calls with the rule passed as ONE list argument
+        if op[1] == "p":
+            return call("add_policy" if n == "add" else "remove_policy", list(op[2]))
+        return call("add_named_grouping_policy" if n == "add" else "remove_named_grouping_policy", op[1], list(op[2]))
     if n == "add":
         if op[1] == "p":
             return call("add_policy", *op[2])
@@ -782,7 +789,7 @@ def compare_history(res, cfg, hist, impl, answers, idx, queries, judge):
         res.evaluations += 1
         res.count("op:" + op[0])
         res.count("ret:" + (rec["ret"] if rec["ret"] in ("T", "F", "-") or rec["ret"].startswith("!") else "list"))
-        case = {"config": {"shape": cfg.shape, "text": cfg.text, "matchfn": cfg.matchfn, "adapter": cfg.adapter, "watcher": cfg.watcher, "async": cfg.is_async, "late": cfg.late, "sync_callbacks": cfg.sync_callbacks, "initial": cfg.initial}, "history": [list(o) for o in hist[: i + 1]], "step": i}
+        case = {"config": {"shape": cfg.shape, "text": cfg.text, "matchfn": cfg.matchfn, "adapter": cfg.adapter, "watcher": cfg.watcher, "async": cfg.is_async, "late": cfg.late, "sync_callbacks": cfg.sync_callbacks, "listform": cfg.listform, "initial": cfg.initial}, "history": [list(o) for o in hist[: i + 1]], "step": i}
         model = {"ret": mret, "acalls": acalls, "wcalls": wcalls, "events": events, "obs": obs, "answers": [m for m, _ in qa], "fresh": [s for _, s in qa]}
         # ---- the tie: implementation vs model
         diffs = []
@@ -876,7 +883,7 @@ def op_alphabet(shape, level="full"):
     if shape == "res":
         for r in G2:
             ops += [("add", "g2", r), ("remove", "g2", r)]
-        ops += [("addmany", "g2", [G2[0], G2[1]]), ("removefiltered", "g2", 1, ["grp"])]
+        ops += [("addmany", "g2", [G2[0], G2[1]]), ("removefiltered", "g2", 1, ["grp"]), ("removemany", "g2", [G2[0]]), ("removemany", "g2", [G2[0], G2[1]])]
     if level == "full":
         ops += [("update", P[0], P[2 if len(P) > 2 else 1]), ("update", P[0], P[0][:-1] + ["write"]), ("updatemany", [P[0]], [P[0][:-1] + ["write"]])]
         ops += [("clear",), ("build",), ("load", None), ("save",), ("updateread", "x")]
